@@ -1,73 +1,88 @@
 import TarpcModel.Driver.Show
-import TarpcModel.Client.Model
+import TarpcModel.Monitors.Client
 /- Family `cli`: one client endpoint (dispatch + calls) over a SimTransport; the peer is the script. -/
 namespace TarpcModel.Driver
 open TarpcModel TarpcModel.Client
 
-structure CliSt where
-  s   : Client.St
-  now : Nat := 0
-
-def cliInit (ps : List (String × String)) : CliSt :=
-  { s := Client.init 0 (param ps "max" 1) (param ps "buf" 1) (param ps "cap" 1) (param ps "coupled" 1 == 1) }
+def cliInit (ps : List (String × String)) : Sys :=
+  initSys (param ps "max" 1) (param ps "buf" 1) (param ps "cap" 1) (param ps "coupled" 1 == 1)
 
 def parseDropAt : List String → DropAt
   | ["enter"] => .enter | ["mid"] => .mid | ["exit"] => .exit | _ => .none
 
-/-- Applies one op to the client; `none` = not a client op / unparsable. -/
-def cliApply (c : CliSt) (toks : List String) : Option CliSt :=
-  let s := c.s
-  let now := c.now
+def parseFault : String → Option FaultKind
+  | "ready" => some .ready | "send" => some .send | "flush" => some .flush
+  | "close" => some .close | "next" => some .next | _ => none
+
+def parseCOp (toks : List String) : Option COp :=
   match toks with
   | "call" :: rest => do
-      let tr ← parseTrace (← kvStr rest "t")
-      some { c with s := newCall s (← kvNat rest "h") { deadline := (← kvNat rest "d"), trace := tr } (← kvNat rest "b") }
-  | ["poll-call", cid] => do some { c with s := pollCall s (← cid.toNat?) now }
-  | "drop-call" :: cid :: site => do some { c with s := dropCall s (← cid.toNat?) (parseDropAt site) now }
-  | ["clone", h] => do some { c with s := cloneHandle s (← h.toNat?) }
-  | ["drop-handle", h] => do some { c with s := dropHandle s (← h.toNat?) }
-  | ["poll-dispatch"] => some { c with s := pollDispatch s now }
-  | ["drop-dispatch"] => some { c with s := dropDispatch s }
+      some (.call (← kvNat rest "h") (← kvNat rest "d") (← parseTrace (← kvStr rest "t")) (← kvNat rest "b"))
+  | ["poll-call", c] => c.toNat?.map .pollCall
+  | "drop-call" :: c :: site => do some (.dropCall (← c.toNat?) (parseDropAt site))
+  | ["clone", h] => h.toNat?.map .clone
+  | ["drop-handle", h] => h.toNat?.map .dropHandle
+  | ["poll-dispatch"] => some .pollDispatch
+  | ["drop-dispatch"] => some .dropDispatch
   | "inject" :: "resp" :: rest => do
       let id ← kvNat rest "id"
-      let res ← match kvNat rest "ok", kvNat rest "err" with
-        | some b, _ => some (Res.ok b)
-        | _, some k => some (Res.err k)
-        | _, _ => none
-      some { c with s := liftT s (s.t.inject (.msg (.response id res))) }
-  | ["inject", "err"] => some { c with s := liftT s (s.t.inject .err) }
-  | ["eof"] => some { c with s := liftT s s.t.setEof }
-  | ["set-ready", b] => some { c with s := liftT s (s.t.setReady (b == "1")) }
-  | ["set-flush", b] => some { c with s := liftT s (s.t.setFlush (b == "1")) }
-  | ["fault", k] =>
-      let t := s.t
-      let t := match k with
-        | "ready" => { t with faultReady := true }
-        | "send" => { t with faultSend := true }
-        | "flush" => { t with faultFlush := true }
-        | "close" => { t with faultClose := true }
-        | _ => { t with faultNext := true }
-      some { c with s := { s with t := t } }
-  | ["take", n] => do
-      let (t, ms) := s.t.take (← n.toNat?)
-      some { c with s := ms.foldl (fun s m => emit s (.took (tid s) m)) { s with t := t } }
-  | ["advance", n] => do
-      let now' := now + (← n.toNat?)
-      some { s := onAdvance s now', now := now' }
+      match kvNat rest "ok", kvNat rest "err" with
+      | some b, _ => some (.injectResp id (.ok b))
+      | _, some k => some (.injectResp id (.err k))
+      | _, _ => none
+  | ["inject", "err"] => some .injectErr
+  | ["eof"] => some .eof
+  | ["set-ready", b] => some (.setReady (b == "1"))
+  | ["set-flush", b] => some (.setFlush (b == "1"))
+  | ["fault", k] => (parseFault k).map .fault
+  | ["take", n] => n.toNat?.map .take
+  | ["advance", n] => n.toNat?.map .advance
   | _ => none
 
-def cliStep (c : CliSt) (toks : List String) : CliSt × List String :=
-  match cliApply { c with s := { c.s with obs := [] } } toks with
-  | some c' => ({ c' with s := { c'.s with obs := [] } }, c'.s.obs.reverse.map showObs)
+def cliStep (c : Sys) (toks : List String) : Sys × List String :=
+  match parseCOp toks with
+  | some op => let (c', os) := stepOp c op; (c', os.map showObs)
   | none => (c, ["bad-op"])
 
+/-- All client-side monitors run side by side; the verdict lists the failing properties. -/
+structure CliMon where
+  c01 : Mon C01St := { st := [] }
+  c03 : Mon Unit := { st := () }
+  c05 : Mon C05St := { st := none }
+  c09 : Mon C09St := { st := none }
+  c10 : Mon C10St := { st := {} }
+  c11 : Mon Unit := { st := () }
+  c14 : Mon C14St := { st := {} }
+  c18 : Mon Unit := { st := () }
+  maxInFlight : Nat := 1
+  garbled : Option String := none
+
+def CliMon.feed (m : CliMon) (e : CEv) : CliMon :=
+  { m with c01 := Mon.step checkC01 m.c01 e, c03 := Mon.step checkC03 m.c03 e, c05 := Mon.step checkC05 m.c05 e,
+           c09 := Mon.step checkC09 m.c09 e, c10 := Mon.step checkC10 m.c10 e,
+           c11 := Mon.step (checkC11 m.maxInFlight) m.c11 e, c14 := Mon.step checkC14 m.c14 e,
+           c18 := Mon.step checkC18 m.c18 e }
+
+def CliMon.verdict (m : CliMon) : Option String :=
+  let fs := [("C01", m.c01.bad), ("C03", m.c03.bad), ("C05", m.c05.bad), ("C09", m.c09.bad), ("C10", m.c10.bad),
+             ("C11", m.c11.bad), ("C14", m.c14.bad), ("C18", m.c18.bad), ("PARSE", m.garbled)]
+  let bad := fs.filterMap fun (p, b) => b.map fun w => s!"[{p}] {w}"
+  if bad.isEmpty then none else some (" ;; ".intercalate bad)
+
 def cli : Family where
-  σ := CliSt
-  μ := Unit
+  σ := Sys
+  μ := CliMon
   init := cliInit
   step := cliStep
-  monInit _ := ()
-  monStep _ _ := ()
-  monVerdict _ := none
+  monInit ps := { maxInFlight := param ps "max" 1 }
+  monStep m toks :=
+    match parseObs toks with
+    | some o => m.feed (.obs o)
+    | none => { m with garbled := m.garbled.orElse fun _ => some ("unparsable obs: " ++ " ".intercalate toks) }
+  monOp m toks :=
+    match parseCOp toks with
+    | some o => m.feed (.op o)
+    | none => { m with garbled := m.garbled.orElse fun _ => some ("unparsable op: " ++ " ".intercalate toks) }
+  monVerdict m := m.verdict
 
 end TarpcModel.Driver
